@@ -48,6 +48,20 @@ type wcase struct {
 	Stored []int `json:"stored"` // spec: indices the writer keeps
 	Limit  int   `json:"limit"`  // spec constant
 	NV     int   `json:"nv"`     // concretisation variant
+	Big    int   `json:"big"`    // 0 = no long line; 1..12 = one good line is made long: length (big-1)%4, position (big-1)/4
+}
+
+// "big" concretisation: the limit is 256 KiB and one well-formed line is 64 KiB long or more (a long string field value).
+// bigLineLens are line lengths including the newline: around the 64 KiB mark and well above it.
+const bigLimit = 256 * 1024
+
+var bigLineLens = []int{65535, 65536, 65537, 200000}
+
+// longGoodLine returns a well-formed line for point i of exactly n bytes (without the newline)
+func longGoodLine(i, n int) string {
+	head := fmt.Sprintf("good%d,host=a f=1.5,s=\"", i)
+	tail := "\""
+	return head + strings.Repeat("x", n-len(head)-len(tail)) + tail
 }
 
 type recWriter struct {
@@ -139,6 +153,26 @@ func run(raw json.RawMessage, env *rt.Env) rt.Result {
 	}
 	rng := rand.New(rand.NewSource(env.Seed*7919 + int64(c.NV)))
 	L := limits[c.NV%len(limits)]
+	bigIdx := -1 // index in c.Req.Lines of the good line that is made long
+	if c.Big > 0 {
+		L = bigLimit
+		var goods []int
+		for i, cl := range c.Req.Lines {
+			if cl == "good" {
+				goods = append(goods, i)
+			}
+		}
+		if len(goods) > 0 {
+			switch (c.Big - 1) / 4 {
+			case 0:
+				bigIdx = goods[0]
+			case 1:
+				bigIdx = goods[len(goods)/2]
+			default:
+				bigIdx = goods[len(goods)-1]
+			}
+		}
+	}
 	var size int
 	switch c.Req.Size - c.Limit {
 	case -1:
@@ -158,7 +192,11 @@ func run(raw json.RawMessage, env *rt.Env) rt.Result {
 	for i, cl := range c.Req.Lines {
 		switch cl {
 		case "good":
-			lines = append(lines, goodLine(i+1, c.NV+i))
+			if i == bigIdx {
+				lines = append(lines, longGoodLine(i+1, bigLineLens[(c.Big-1)%4]-1))
+			} else {
+				lines = append(lines, goodLine(i+1, c.NV+i))
+			}
 		case "bad":
 			lines = append(lines, badLine(i+1, c.NV/2+i))
 		case "comment":
@@ -247,6 +285,9 @@ func run(raw json.RawMessage, env *rt.Env) rt.Result {
 		return out
 	}
 	desc := fmt.Sprintf("lines=%v decoded=%d wire=%d limit=%d enc=%s writer=%s/%d", c.Req.Lines, size, len(wire), L, c.Req.Enc, c.Req.WKind, c.Req.WDrop)
+	if bigIdx >= 0 {
+		desc += fmt.Sprintf(" (line %d is %d bytes long with its newline)", bigIdx+1, bigLineLens[(c.Big-1)%4])
+	}
 	got := map[string]interface{}{"status": code, "body": respBody, "handed": rec.handed, "writerCalls": rec.calls}
 	var drift []string
 	evals := 1
@@ -345,7 +386,7 @@ func run(raw json.RawMessage, env *rt.Env) rt.Result {
 	}
 	nontrivial := hasBad || size >= L || c.Req.Enc == "gzip" || c.Req.WKind != "ok"
 	return rt.Result{OK: true, Evals: evals, Drift: drift, Nontrivial: nontrivial,
-		Sig: fmt.Sprintf("%v|%d|%s|%v|%s|%d", c.Req.Lines, c.Req.Size-c.Limit, c.Req.Enc, c.Req.CSmall, c.Req.WKind, c.Req.WDrop)}
+		Sig: fmt.Sprintf("%v|%d|%s|%v|%s|%d|big=%v", c.Req.Lines, c.Req.Size-c.Limit, c.Req.Enc, c.Req.CSmall, c.Req.WKind, c.Req.WDrop, bigIdx >= 0)}
 }
 
 func main() { rt.Main(run) }
